@@ -146,6 +146,7 @@ func selfTest(id, repo, verif string, res *report.Result, findings []report.Find
 			}
 		}
 		reps = append(reps, r2.Broken...)
+		reps = append(reps, r2.MinFailures()...)
 		totalT++
 		st := "alive"
 		if len(reps) > 0 {
@@ -157,6 +158,60 @@ func selfTest(id, repo, verif string, res *report.Result, findings []report.Find
 		}
 		outs = append(outs, outcome{name, target, st, reps})
 	}
+	// the other direction: behaviour-preserving refactorings of the code this property talks about must stay silent
+	rdirs, _ := filepath.Glob(filepath.Join(verif, "refactors", id+"-*"))
+	sort.Strings(rdirs)
+	var routs []outcome
+	silent, totalR := 0, 0
+	for _, d := range rdirs {
+		name := filepath.Base(d)
+		ov, err := patch.Apply(repo, filepath.Join(d, "patch.diff"))
+		if err != nil {
+			routs = append(routs, outcome{name, id, "stale", []string{err.Error()}})
+			continue
+		}
+		p, err := prog.Load(repo, false, ov)
+		if err != nil {
+			routs = append(routs, outcome{name, id, "stale", []string{err.Error()}})
+			continue
+		}
+		r2 := report.New(id, "thorough", 0)
+		func() {
+			defer func() {
+				if r := recover(); r != nil {
+					r2.Break("analysis panic: %v", r)
+				}
+			}()
+			rf(&rules.Ctx{P: p, R: r2, Tier: "quick"})
+		}()
+		var reps []string
+		for _, o := range r2.Obls {
+			if o.Status != report.OK && !known[o.Key] {
+				reps = append(reps, o.Key)
+			}
+		}
+		reps = append(reps, r2.Broken...)
+		reps = append(reps, r2.MinFailures()...)
+		totalR++
+		st := "silent"
+		if len(reps) > 0 {
+			st = "false-alarm"
+		} else {
+			silent++
+		}
+		if len(reps) > 4 {
+			reps = reps[:4]
+		}
+		routs = append(routs, outcome{name, id, st, reps})
+	}
+	res.Extra["selftest_refactorings"] = map[string]interface{}{
+		"what":         "behaviour-preserving refactorings of the code this property talks about (confirmed: compile, pass the suite) analysed through an in-memory overlay; every one must stay silent",
+		"total":        totalR,
+		"silent":       silent,
+		"false_alarms": totalR - silent,
+		"outcomes":     routs,
+	}
+	fmt.Printf("%s selftest: %d/%d behaviour-preserving refactorings stay silent\n", id, silent, totalR)
 	res.Extra["selftest"] = map[string]interface{}{
 		"what":             "seeded breaking changes for this property (confirmed: compile, pass the suite, demonstration fails) analysed through an in-memory overlay",
 		"mutants_total":    totalT,
